@@ -187,3 +187,14 @@ uint8_t vfr_state(fr_m *x) { return x->f0; }
 /* replacement for FastRational::mpqPool::alloc/release (the pool itself is the subject of C24 only) */
 mpq_m *vfr_pool_alloc(void *pool) { (void)pool; mpq_m *q = (mpq_m *)malloc(sizeof(mpq_m)); __CPROVER_assume(q != 0); __gmpq_init(q); return q; }
 void vfr_pool_release(void *pool, mpq_m *q) { (void)pool; (void)q; }
+/* canonical FastRational holding the (scaled: 2W-bit, else 64-bit) signed integer x: word form iff it fits */
+void vfr_make_int(fr_m *x, uint64_t v) {
+  gz2_t n = gz_sx64(v);
+  x->f3 = 0;
+  if (fr_fits_word(n, 1)) { x->f0 = 1; x->f1 = (uint32_t)(v & FR_WMASK); x->f2 = 1; return; }
+  mpq_m *q = (mpq_m *)malloc(sizeof(mpq_m));
+  __CPROVER_assume(q != 0);
+  __gmpq_init(q);
+  gz_put(&q->f0, n); gz_put(&q->f1, 1);
+  x->f3 = q; x->f0 = 6; x->f1 = 0; x->f2 = 1;
+}
